@@ -115,11 +115,12 @@ def tonsq_cases(ctx, asis, fixed):
     return cases, nlong
 
 
-def run_tonsq(ctx, cases, nlong, tag="tonsq"):
+def run_tonsq(ctx, cases, nlong, tag="tonsq", seed=None):
     job = os.path.join(ctx.scratch, tag + "-job.json")
     rep = os.path.join(ctx.scratch, tag + "-report.json")
     with open(job, "w") as f:
-        json.dump({"bin": ctx.repo_bin("to_nsq"), "seed": ctx.seed, "workers": NWORK, "cases": cases, "long": nlong}, f)
+        json.dump({"bin": ctx.repo_bin("to_nsq"), "seed": ctx.seed if seed is None else seed, "workers": NWORK,
+                   "cases": cases, "long": nlong}, f)
     rc, out, err = ctx.run_harness(["tonsq", "--job", job, "--report", rep], timeout=3000, name="relay")
     if rc != 0 or not os.path.exists(rep):
         raise Inconclusive("relay tonsq: rc=%s %s %s" % (rc, out[-1500:], err[-1500:]))
@@ -153,7 +154,7 @@ def judge_tonsq(ctx, R):
                 "byte %s to %s destination(s): expected records %s, destination nsqd holds %s"
                 % (n, R["runs"], cls, ex.get("input_hex"), ex.get("delim"), ex.get("ndest"), ex.get("expected_hex"),
                    ex.get("got_hex_dest1")))
-        path = ctx.save_replay("tonsq-" + cls, {"kind": "tonsq", "class": cls, "count": n, "mismatches": ms})
+        path = ctx.save_replay("tonsq-" + cls, {"kind": "tonsq", "class": cls, "count": n, "seed": ctx.seed, "mismatches": ms})
         ctx.sample({"to_nsq_mismatch": ex})
         ctx.violation(what, path, key=KEY_LASTBYTE if cls == "unterminated-final-record-loses-last-byte" else None)
 
@@ -364,7 +365,12 @@ def replay(ctx):
             x, y, d = (int(g) for g in mm.groups())
             recs = [c for c in re.split("d+", sym) if c]
             cases.append({"in": sym, "rec": recs, "asis": [], "fixed": recs, "x": x, "y": y, "d": d, "ndest": m["ndest"]})
-        R = run_tonsq(ctx, cases, 0, tag="replay")
+            fa = re.search(r"fail_after=(\d+)", m["case"])
+            if fa:
+                cases[-1]["fail_after"] = int(fa.group(1))
+        # generated long inputs are regenerated from the recorded seed (the first 60 of them)
+        nlong = 60 if any(not (m.get("symbolic") or "") for m in obj["mismatches"]) else 0
+        R = run_tonsq(ctx, cases, nlong, tag="replay", seed=obj.get("seed"))
         judge_tonsq(ctx, R)
     elif obj.get("kind") == "relay":
         RR, tr, ftr = run_relay(ctx, [obj["scenario"]], tag="replay")
